@@ -110,7 +110,7 @@ def check_safe(case):
     return None
 
 
-def check_near(case):
+def check_near(case, faces=True, check_boxes=True):
     shape = tuple(case['shape'])
     H, W, D = shape
     img = R.labelled(shape, 'int32')
@@ -129,7 +129,7 @@ def check_near(case):
     p = res['replay']['transforms'][0]['params']
     f = list(frac) if isinstance(frac, (list, tuple)) else [frac] * 3
     sh = (round((ref[4] - ref[1]) * f[0]), round((ref[3] - ref[0]) * f[1]), round((ref[5] - ref[2]) * f[2]))
-    for nm, lo_ref, hi_ref, s in (('x', ref[0], ref[3], sh[1]), ('y', ref[1], ref[4], sh[0]), ('z', ref[2], ref[5], sh[2])):
+    for nm, lo_ref, hi_ref, s in (('x', ref[0], ref[3], sh[1]), ('y', ref[1], ref[4], sh[0]), ('z', ref[2], ref[5], sh[2])) if faces else ():
         lo, hi = p[nm + '_min'], p[nm + '_max']
         if not (max(0, lo_ref - s) <= lo <= max(0, lo_ref + s) and hi_ref - s <= hi <= hi_ref + s):
             return ('face-shift', '%s window [%d, %d] for reference [%d, %d]' % (nm, lo, hi, lo_ref, hi_ref),
@@ -139,11 +139,15 @@ def check_near(case):
     out = res['image']
     if min(out.shape) < 1:
         return ('empty-window', 'image %s' % (out.shape,), 'a non-empty window (the reference box lies inside the volume)')
+    if not faces:
+        # the window the IMAGE shows, read off the labelled voxels (not the recorded parameters)
+        y0, x0, z0 = (int(v) for v in np.unravel_index(int(out[0, 0, 0]) - 1, shape))
+        y1, x1, z1 = y0 + out.shape[0], x0 + out.shape[1], z0 + out.shape[2]
     if out.shape != (y1 - y0, x1 - x0, z1 - z0) or not np.array_equal(out, img[y0:y1, x0:x1, z0:z1]):
         return ('image-window', 'image %s' % (out.shape,), 'the clamped window rows %d:%d cols %d:%d slices %d:%d' % (y0, y1, x0, x1, z0, z1))
     lim = (x1 - x0, y1 - y0, z1 - z0) * 2
     gotb = {q[6]: tuple(q) for q in res['bboxes']}
-    for b in boxes:
+    for b in boxes if check_boxes else []:
         exp = [b[0] - x0, b[1] - y0, b[2] - z0, b[3] - x0, b[4] - y0, b[5] - z0]
         exp = [min(max(v, 0.0), l) for v, l in zip(exp, lim)]
         vol = (exp[3] - exp[0]) * (exp[4] - exp[1]) * (exp[5] - exp[2])
@@ -161,7 +165,7 @@ def check_near(case):
     return None
 
 
-def gen_case(rng, kind, touch_far=False):
+def gen_case(rng, kind, touch_far=False, touch_low=False):
     shape = rng.sample([8, 10, 12, 15, 20, 24, 30], 3)
     H, W, D = shape
     if kind == 'safe':
@@ -175,6 +179,10 @@ def gen_case(rng, kind, touch_far=False):
     if touch_far:
         # a reference box that reaches the far faces of the volume: a shifted window passes them and is clamped
         ref[3:] = [W, H, D]
+    if touch_low:
+        # ... or starts at / next to the near faces: a window shifted outwards passes them
+        ref[:3] = [rng.randint(0, 1), rng.randint(0, 1), rng.randint(0, 1)]
+        ref[3:] = [max(ref[3], ref[0] + 4), max(ref[4], ref[1] + 4), max(ref[5], ref[2] + 4)]
     inside = lambda: (rng.uniform(ref[0], ref[3] - 1.0), rng.uniform(ref[1], ref[4] - 1.0), rng.uniform(ref[2], ref[5] - 1.0))
     boxes = []
     for i in range(rng.randint(1, 2)):
@@ -182,7 +190,7 @@ def gen_case(rng, kind, touch_far=False):
         boxes.append((a[0], a[1], a[2], min(a[0] + rng.uniform(0.5, 4), W), min(a[1] + rng.uniform(0.5, 4), H), min(a[2] + rng.uniform(0.5, 4), D), 'b%d' % i))
     # the whole documented range [0, 1]: from 0.5 on the two faces of an axis can meet or cross
     shift = rng.choice([0.3, 0.1, 0, [0.1, 0.5, 0.3], [0.5, 0.0, 0.25], [0.0, 0.2, 0.6], 0.5, 1, [1.0, 0.75, 0.5], [0.9, 1.0, 1.0]])
-    if touch_far:
+    if touch_far or touch_low:
         shift = rng.choice([0.3, 0.5, [0.4, 0.5, 0.3]])
     return {'kind': kind, 'shape': shape, 'seed': R.pick_seed(rng), 'ref': ref, 'boxes': boxes,
             'kps': [inside() for _ in range(3)], 'shift': shift}
